@@ -2,10 +2,18 @@
 """prints the sub-agent prompt for property ID (only the property text is disclosed, nothing from /verif)"""
 import json,sys
 pid=sys.argv[1]
+rnd=sys.argv[2] if len(sys.argv)>2 else ''
+import glob,os
+avoid=''
+if rnd:
+    items=[]
+    for m in sorted(glob.glob(f'/verif/seeded/{pid}-*/meta.json')):
+        d=json.load(open(m)); items.append(f"    - {', '.join(d['files'])}: {d['needs_to_manifest']}")
+    if items: avoid="\n\nOther people have already produced the following changes for this property; yours must use DIFFERENT mechanisms (other functions, other forms of input, other code paths - ideally other files), not variations of these:\n"+"\n".join(items)
 p=[json.loads(l) for l in open('/verif/properties.jsonl') if json.loads(l)['id']==pid][0]
-wt=f"/tmp/mut-{pid}"
+wt=f"/tmp/mut{rnd}-{pid}"
 low=pid.lower()
-print(f"""You are working on the Rust project mech-lang/mech (the Mech programming language: a nom-based parser and a text formatter in src/syntax, a tree-walking interpreter in src/interpreter, core types and the bytecode compiler/loader in src/core, stdlib "machines" in machines/*, CLI + file loading (src/mechfs.rs) in src/). A private git worktree of the repository has been created for you at {wt} (detached HEAD). Work ONLY inside {wt}. Never read, write or run anything in /repo or /verif, and never commit anywhere.
+TEXT=(f"""You are working on the Rust project mech-lang/mech (the Mech programming language: a nom-based parser and a text formatter in src/syntax, a tree-walking interpreter in src/interpreter, core types and the bytecode compiler/loader in src/core, stdlib "machines" in machines/*, CLI + file loading (src/mechfs.rs) in src/). A private git worktree of the repository has been created for you at {wt} (detached HEAD). Work ONLY inside {wt}. Never read, write or run anything in /repo or /verif, and never commit anywhere.
 
 Behavioural property of the system (it is supposed to hold for every input):
 
@@ -25,3 +33,5 @@ Please produce TWO independent mutants if you can (each applied to a clean tree,
   - demo1.rs (and demo2.rs): the demonstration test for the corresponding patch;
   - notes.md: for each mutant, what you changed, why it violates the property, what exactly is needed for it to manifest, and the commands you ran with their results (test suite with the patch: counts; demo with / without the patch).
 Leave the worktree's tracked source files UNMODIFIED at the end (git checkout -- . after saving the patches; leave out/ in place). Do not delete the target directory. Report briefly what you produced.""")
+MARK="First check on the unchanged tree"
+print(TEXT.replace(MARK, (avoid+"\n\n" if avoid else "")+MARK, 1))
